@@ -31,6 +31,21 @@ type op struct {
 	NoCheck bool     `json:"nocheck,omitempty"`
 }
 
+var reNums = regexp.MustCompile(`[0-9]+`)
+
+// reasonOf renders the text of a NO/BAD completion without the parts that vary (numbers, timings, error offsets).
+func reasonOf(text string) string {
+	t := text
+	if i := strings.LastIndex(t, ": "); i >= 0 {
+		t = t[i+2:]
+	}
+	t = reNums.ReplaceAllString(t, "N")
+	if len(t) > 60 {
+		t = t[:60]
+	}
+	return strings.TrimSpace(t)
+}
+
 func actWord(a string) string {
 	switch a {
 	case "+":
@@ -755,6 +770,9 @@ func (w *world) exec(o op) error {
 	switch {
 	case got != expect:
 		det := fmt.Sprintf("answered %s want %s", r.Status, expectWord(expect))
+		if r.Status != "OK" {
+			det = fmt.Sprintf("answered %s (%s) want %s", r.Status, reasonOf(r.Text), expectWord(expect))
+		}
 		if dk != "" {
 			det += "; " + dd
 		}
